@@ -871,7 +871,7 @@ def gen_groups(rng, tier, start_index=0):
             g.append((mk(ty, sh, "ctor"), "same"))
             sh2 = [(k, shuffle_view(rng, v)) for k, v in items]
             rng.shuffle(sh2)
-            g.append((mk(ty, sh2, "parse"), "same"))
+            g.append((mk(ty, sh2, rng.choice(["parse", "parse", "parse_text"])), "same"))
             # a change to non-contributing properties only
             c2, n2, req2 = build(rng, ty)
             keep = dict(req + c)
@@ -963,7 +963,8 @@ def gen_groups(rng, tier, start_index=0):
 
     # exceptions raised inside _generate_id (no object exists: the model is fed the raw input)
     for bad, kind in ((O([("a", None)]), "dict"), (O([("a", O([("b", A([I(1), None]))]))]), "dict"),
-                      ({"f": "nan"}, "float"), ({"f": "inf"}, "float"), ({"f": "-inf"}, "float")):
+                      ({"f": "nan"}, "float"), ({"f": "inf"}, "float"), ({"f": "-inf"}, "float"),
+                      (I(10 ** 400), "int"), (I(-(2 ** 1024)), "int")):
         for contrib in (["val"], []):
             counter[0] += 1
             ty = "x-verif-%d" % counter[0]
@@ -1009,6 +1010,8 @@ def run_cases_other_process(cases, hashseed):
     import subprocess
     env = common.impl_env()
     env["PYTHONHASHSEED"] = str(hashseed)
+    if hashseed:
+        env["TZ"] = "JST-9" if hashseed % 2 else "EST5EDT"      # a non-UTC POSIX zone: ids must not depend on it
     script = os.path.join(common.VERIF, "harness", "impl", "c06_impl.py")
     p = subprocess.run([common.PY, script], input="\n".join(json.dumps(c) for c in cases) + "\n", stdout=subprocess.PIPE,
                        stderr=subprocess.PIPE, text=True, env=env, timeout=1800, cwd=common.scratch())
